@@ -489,7 +489,14 @@ fn canon_c15(req: &str, out: &str, relaxed_dump: bool) -> String {
                 e.sort();
                 format!("{:?}{:?}", n, e)
             }
-            Err(_) => out.to_string(),
+            Err(_) => match serde_cbor::from_slice::<(Vec<(usize, i64)>, Vec<(usize, usize, u32)>)>(&exec_cont::unhex(out)) {
+                Ok((mut n, mut e)) if out.starts_with('x') => {
+                    n.sort();
+                    e.sort();
+                    format!("{:?}{:?}", n, e)
+                }
+                _ => out.to_string(),
+            },
         },
         "dump" if relaxed_dump => {
             let mut v: Vec<String> = out
